@@ -105,3 +105,54 @@ prop(
         "select/channel receive in consume is abstracted (any case, any fetch)",
     ],
 )
+
+prop(
+    "C09",
+    level="proof",
+    design_ref="DESIGN.md section 3, C09",
+    groups=[(["./pipeline"], r"^(\(\*RetriableBatcher\)\.Out|\(\*Batch\)\.reset)$")],
+    canaries=[("./pipeline", "replay/C09/zz_replay_c09_test.go", "TestVerifReplayC09")],
+    claim=(
+        "RetriableBatcher.Out, for every success/failure sequence of the send function (outFn returns any error or nil on every call; loop invariant, no bound) and every retry count including 0 and negative: "
+        "it returns normally only right after a send that returned nil; it gives up at most once, only with a non-negative retry count and only after strictly more retries than configured; "
+        "on giving up the error callback receives exactly the batch's events once, and the batch is emptied and marked in-dead-queue iff a dead queue is available, otherwise left untouched so the main output commits it. "
+        "Batch.reset empties the batch (frame checked)."
+    ),
+    undecided=[
+        "which of the two batchers (main / dead queue) commits first, and a dead-queue batcher stopped before the main output's last retries (Router.Stop order): interleavings, not decided",
+        "each output plugin's onError closure forwards every event to Router.Fail exactly once, and its IsDeadQueueAvailable option agrees with the router: per-plugin wiring, only the shared retry loop is under contract",
+        "'not committed while retries are pending' is Out not having returned plus program order in Batcher.work (C08/C01 contracts)",
+    ],
+    assumptions=[
+        "backoff v4.3.0 ExponentialBackOff.NextBackOff/Reset behave as their lib contracts (from the library source: Stop iff MaxElapsedTime != 0 and exceeded)",
+        "outFn and onRetryError do not write the RetriableBatcher's options or the batch header (callee clauses: pure)",
+        "timer channel receive is abstracted",
+    ],
+)
+
+prop(
+    "C08",
+    level="other",
+    design_ref="DESIGN.md section 3, C08",
+    groups=[(["./pipeline"], r"^(\(\*Batcher\)\.(Add|heartbeat|trySendBatchAndUnlock|getBatch|commitBatch|work|Stop)|\(\*Batch\)\.(append|updateStatus|reset)|\(\*Event\)\.IsChildParentKind)$")],
+    claim=(
+        "Batcher mechanisms proved with monitor (lock) invariants on the real code, for all arrival patterns, event sizes, limits and worker counts: "
+        "(1) size: under Batcher.mu the batch being filled is strictly below its count and byte limits (monitor invariant, proved at every Unlock); every batch handed to the workers (oracle on the channel send) is ready, non-empty, "
+        "has at most maxSizeCount events and was below maxSizeBytes before its last event; (2) updateStatus is the exact decision table (count / bytes / age / empty), so a non-empty batch older than the flush timeout is ready when the heartbeat looks at it; "
+        "(3) sequence numbers: each sent batch takes outSeq and outSeq is incremented under the lock; (4) commitBatch waits until commitSeq equals the batch's number, then - holding seqMu - commits every event of the batch exactly once in index order "
+        "(oracle on Controller.Commit) and only then passes the turn on; (5) work commits a batch only after its own send returned (when it has anything to send); (6) after shouldStop, Add adds nothing. "
+        "Lock discipline (every access to a protected field with the lock held, lock state equal on loop back edges, invariant re-established at Unlock/Wait) is part of the proof."
+    ),
+    undecided=[
+        "'within the flush timeout plus scheduling slack': real time; only the status rule and the heartbeat's call are proved",
+        "Stop while Add is in flight: Add sends on fullBatches after releasing mu, Stop closes it under mu - whether the send can hit a closed channel is a schedule (by reading it can: see DESIGN.md findings); not decided by contracts",
+        "'every added event is committed exactly once' across batches needs the channel/ownership protocol (a batch is owned by one goroutine at a time): assumed, not proved",
+    ],
+    assumptions=[
+        "channel invariants assumed at receives: freeBatches carries batches made by newBatch (non-negative limits, one set); fullBatches carries what the send oracle requires",
+        "a batch taken from a channel is owned by the receiving goroutine (no other goroutine touches it)",
+        "OutFn / MaintenanceFn / Controller.Commit do not write Batcher or Batch headers (preserves clauses)",
+        "event.Size >= 0",
+    ],
+    technique="contract-based deductive verification with monitor invariants (govc over go/ssa + SMT)",
+)
